@@ -22,7 +22,10 @@ Inductive case :=
   (* lmethod.get_knee on m points; err = [(i, compute_error(x, y, i, length, fit, cost)[0])] *)
   | CLmG (m : nat) (err : list (nat * oval float)) (out : iout)
   (* lmethod.knee on n points; lerr = [((m, i), compute_error(x[:m], y[:m], i, x[m-1]-x[0], fit)[0])] *)
-  | CLm (n : nat) (it : refinement) (limit : nat) (lerr : list (nat * nat * oval float)) (out : iout).
+  | CLm (n : nat) (it : refinement) (limit : nat) (lerr : list (nat * nat * oval float)) (out : iout)
+  (* the same call with the points PRESENTED in another float width (float32): the implementation then computes its criterion
+     in that arithmetic, so only the Tier-S clauses (returns normally, interior index) are judged; agreement is indeterminate *)
+  | CLoose (c : case).
 
 Fixpoint lookup1 {A} (tbl : list (nat * A)) (i : nat) : option A :=
   match tbl with
@@ -63,7 +66,7 @@ Definition code (a h : Z) : Z := (100 * a + h)%Z.
 
 (* result code = 100 * agree + holds   (agree: 0 same, 1 differs, 4 oracle entry missing / malformed table,
    6 outside the property's domain; holds: 0 true, k > 0 conjunct k of the theorem's predicate false) *)
-Definition judge (c : case) : Z :=
+Definition judge_strict (c : case) : Z :=
   match c with
   | CCurv n curv out =>
       if n <? 3 then 600%Z else
@@ -111,10 +114,20 @@ Definition judge (c : case) : Z :=
       let e := fun m i => oget (lookup2 lerr m i) in
       code (agree_res (@lmethod_knee_res F n e it limit) out)
            (holds_loop out (@lmethod_knee_holds F n e it limit))
+  | CLoose _ => 600%Z
+  end.
+(* conjuncts 1 (returned normally) and 2 (interior index) are the Tier-S clauses of every predicate above *)
+Definition loosen (z : Z) : Z :=
+  if (z / 100 =? 6)%Z then 600%Z else
+  let h := (z mod 100)%Z in code 5 (if (h <=? 2)%Z then h else 0%Z).
+Definition judge (c : case) : Z :=
+  match c with
+  | CLoose c' => loosen (judge_strict c')
+  | _ => judge_strict c
   end.
 
 (* the model's own outputs, for replay files *)
-Definition show (c : case) : option nat * res :=
+Definition show_strict (c : case) : option nat * res :=
   match c with
   | CCurv n (Some cv) out => (@curvature_knee F cv, Exc)
   | CDfdtG n (Some g) t out => (@dfdt_get_knee F g t, Exc)
@@ -125,3 +138,5 @@ Definition show (c : case) : option nat * res :=
   | CLm n it limit lerr out => (None, @lmethod_knee_res F n (fun m i => oget (lookup2 lerr m i)) it limit)
   | _ => (None, Exc)
   end.
+Definition show (c : case) : option nat * res :=
+  match c with CLoose c' => show_strict c' | _ => show_strict c end.
